@@ -225,6 +225,32 @@ def run_derivatives(ctx: Ctx) -> None:
             return True, ""
         _guard(ctx, "T5.batch-spacing", f"D={D}", fS, f"D={D} per-batch spacing", thb)
 
+        def thb2(D=D, shape=shape):
+            # concrete spacing rows that are neither equal nor in ascending batch order, (N, D) and (N, 1)
+            reset_relations()
+            fresh_facts()
+            it = make_interp(ctx)
+            ones = [Rat.of(1)] * D
+            u, coef = poly_field(D, shape, ones, 1, "", N=3)  # item n holds (n + 1) * (A i + b) at unit positions
+            rows = [[Fraction(2), Fraction(1, 2), Fraction(3)][:D], [Fraction(1), Fraction(1), Fraction(1)][:D], [Fraction(1, 2), Fraction(4), Fraction(2)][:D]]
+            for sp_rows in (rows, [[r[0]] for r in rows]):
+                sp = STensor.from_nested(sp_rows)
+                for mode in ("forward_central_backward", "central"):
+                    d = it.call(F_["flow_derivatives"], u, order=1, mode=mode, spacing=sp)
+                    for c in range(D):
+                        for j in range(D):
+                            t = d[f"d{CH[c]}/d{LETTERS[j]}"]
+                            if mode == "central":
+                                t = interior(t, D)
+                            for n in range(3):
+                                hn = sp_rows[n][j] if len(sp_rows[n]) > 1 else sp_rows[n][0]
+                                bad = all_equal(t[n:n + 1], coef["A"][c][j] * (n + 1) / hn)
+                                if bad:
+                                    return False, (f"per-batch spacing {[[str(x) for x in r] for r in sp_rows]}, mode {mode}, item {n}, "
+                                                   f"d{CH[c]}/d{LETTERS[j]} is not divided by its own spacing {hn}: {bad}")
+            return True, ""
+        _guard(ctx, "T5.batch-spacing", f"D={D}:unordered rows", fS, f"D={D} per-batch spacing rows not in ascending order", thb2)
+
         # bspline mode
         for stride in (1, 2):
             def ths(D=D, stride=stride):
